@@ -256,7 +256,9 @@ impl Rewriter {
         let mut h = Hoister { n: 0, unsupported: vec![] };
         h.block(&mut blk);
         if self.interfere {
-            Interferer.visit_block_mut(&mut blk);
+            let mut itf = Interferer { unsupported: vec![] };
+            itf.visit_block_mut(&mut blk);
+            h.unsupported.extend(itf.unsupported);
         }
         self.unsupported.extend(h.unsupported.into_iter().map(|u| format!("{}: {}", label, u)));
         let ctx = std::mem::replace(&mut self.ctx, saved);
@@ -537,7 +539,9 @@ impl VisitMut for Rewriter {
                 // `**param` -> `*param` (the Arc layer is dropped)
                 StripArcDeref { name: p.clone() }.visit_expr_mut(&mut body);
                 self.visit_expr_mut(&mut body);
-                *e = parse_quote! { { let __new = { let #pid = &#recv.load(h); #body }; #recv.store(h, __new); } };
+                // one atomic read-copy-update step (the closure is pure; arc-swap retries it until its
+                // compare-and-swap succeeds); the value of the expression is the previous content
+                *e = parse_quote! { atomic({ let __old = #recv.load(h); let __new = { let #pid = &__old; #body }; #recv.store(h, __new); __old }) };
                 return;
             }
             // R4f `X.fetch_update(set_order, fetch_order, |p| B)`: one atomic read-modify-write step
@@ -934,24 +938,42 @@ impl Hoister {
 // ---------------------------------------------------------------- profile T: interference points
 /// `interfere(h, g, c);` in front of every statement whose own evaluation (not that of its nested
 /// blocks) touches the shared heap: other threads may take any number of atomic steps there.
-struct Interferer;
-fn head_touches_heap(e: &Expr) -> bool {
-    struct V(bool);
+struct Interferer { unsupported: Vec<String> }
+/// number of shared-heap accesses in the head of a statement (not in its nested blocks); an
+/// `atomic(..)` step counts as one
+fn head_heap_accesses(e: &Expr) -> usize {
+    struct V(usize);
     impl<'ast> Visit<'ast> for V {
         fn visit_expr(&mut self, e: &'ast Expr) {
-            if self.0 { return; }
             match e {
                 Expr::Closure(_) | Expr::Async(_) => {}
-                Expr::Call(c) if ts(&c.func) == "atomic" => { self.0 = true; }
+                Expr::Call(c) if ts(&c.func) == "atomic" => { self.0 += 1; }
+                Expr::Call(c) if ts(&c.func) == "after_step" || ts(&c.func) == "interfere" => {}
                 Expr::Block(_) | Expr::Loop(_) => {}
                 Expr::If(i) => { self.visit_expr(&i.cond); }
                 Expr::Match(m) => { self.visit_expr(&m.expr); }
                 Expr::While(w) => { self.visit_expr(&w.cond); }
                 Expr::ForLoop(f) => { self.visit_expr(&f.expr); }
                 _ => {
-                    if is_h_call(e) { self.0 = true; return; }
+                    if is_h_call(e) { self.0 += 1; }
                     syn::visit::visit_expr(self, e);
                 }
+            }
+        }
+    }
+    let mut v = V(0);
+    v.visit_expr(e);
+    v.0
+}
+fn branches_outside_atomic(e: &Expr) -> bool {
+    struct V(bool);
+    impl<'ast> Visit<'ast> for V {
+        fn visit_expr(&mut self, e: &'ast Expr) {
+            match e {
+                Expr::Closure(_) | Expr::Async(_) => {}
+                Expr::Call(c) if ts(&c.func) == "atomic" => {}
+                Expr::If(_) | Expr::Match(_) | Expr::While(_) | Expr::ForLoop(_) | Expr::Loop(_) => { self.0 = true; }
+                _ => syn::visit::visit_expr(self, e),
             }
         }
     }
@@ -959,26 +981,96 @@ fn head_touches_heap(e: &Expr) -> bool {
     v.visit_expr(e);
     v.0
 }
+fn step_first_in_branches(e: &mut Expr) {
+    fn prepend(b: &mut Block) {
+        b.stmts.insert(0, parse_quote! { after_step(h, g, c); });
+    }
+    match e {
+        Expr::If(i) => {
+            prepend(&mut i.then_branch);
+            if let Some((_, els)) = &mut i.else_branch {
+                if let Expr::Block(b) = &mut **els { prepend(&mut b.block); }
+            }
+        }
+        Expr::Match(m) => {
+            for arm in m.arms.iter_mut() {
+                if !matches!(&*arm.body, Expr::Block(_)) {
+                    let body = (*arm.body).clone();
+                    arm.body = Box::new(parse_quote! { { #body } });
+                    arm.comma = None;
+                }
+                if let Expr::Block(b) = &mut *arm.body { prepend(&mut b.block); }
+            }
+        }
+        Expr::ForLoop(f) => prepend(&mut f.body),
+        _ => {}
+    }
+}
 impl VisitMut for Interferer {
     fn visit_expr_mut(&mut self, e: &mut Expr) {
         if let Expr::Call(c) = e {
             if ts(&c.func) == "atomic" { return; } // one atomic step: no interference inside
         }
+        // `else if c {..}` -> `else { if c {..} }`: the second condition is a statement of its own
+        if let Expr::If(i) = e {
+            if let Some((_, els)) = &mut i.else_branch {
+                if matches!(&**els, Expr::If(_)) {
+                    let inner = (**els).clone();
+                    *els = Box::new(parse_quote! { { #inner } });
+                }
+            }
+        }
         visit_mut::visit_expr_mut(self, e);
     }
     fn visit_block_mut(&mut self, b: &mut Block) {
-        let mut out = vec![];
-        for mut s in std::mem::take(&mut b.stmts) {
-            let touches = match &s {
-                Stmt::Local(l) => l.init.as_ref().map(|i| head_touches_heap(&i.expr)).unwrap_or(false),
-                Stmt::Expr(e, _) => head_touches_heap(e),
-                _ => false,
+        let mut out: Vec<Stmt> = vec![];
+        let n = b.stmts.len();
+        for (k, mut s) in std::mem::take(&mut b.stmts).into_iter().enumerate() {
+            let accesses = match &s {
+                Stmt::Local(l) => l.init.as_ref().map(|i| head_heap_accesses(&i.expr)).unwrap_or(0),
+                Stmt::Expr(e, _) => head_heap_accesses(e),
+                _ => 0,
             };
-            self.visit_stmt_mut(&mut s);
-            if touches {
-                out.push(parse_quote! { interfere(h, g, c); });
+            if accesses > 1 {
+                self.unsupported.push(format!("profile T: {} shared accesses in one statement `{}`", accesses, ts(&s).chars().take(80).collect::<String>()));
             }
-            out.push(s);
+            if accesses >= 1 {
+                // the ghost step of a branching statement's own access comes first in every branch
+                let head: Option<&mut Expr> = match &mut s {
+                    Stmt::Local(l) => l.init.as_mut().map(|i| &mut *i.expr),
+                    Stmt::Expr(e, _) => Some(e),
+                    _ => None,
+                };
+                if let Some(head) = head {
+                    match head {
+                        Expr::If(_) | Expr::Match(_) | Expr::ForLoop(_) => step_first_in_branches(head),
+                        Expr::While(_) => self.unsupported.push("profile T: `while` condition makes a shared access".into()),
+                        other => {
+                            if branches_outside_atomic(other) {
+                                self.unsupported.push("profile T: a shared access decides a branch nested inside an expression".into());
+                            }
+                        }
+                    }
+                }
+            }
+            self.visit_stmt_mut(&mut s);
+            if accesses == 0 {
+                out.push(s);
+                continue;
+            }
+            out.push(parse_quote! { interfere(h, g, c); });
+            // the ghost step that belongs to this thread's atomic step follows it immediately
+            match s {
+                Stmt::Expr(e, None) if k + 1 == n && !matches!(e, Expr::Return(_) | Expr::Break(_) | Expr::Continue(_)) => {
+                    out.push(parse_quote! { let __v = #e; });
+                    out.push(parse_quote! { after_step(h, g, c); });
+                    out.push(Stmt::Expr(parse_quote! { __v }, None));
+                }
+                s => {
+                    out.push(s);
+                    out.push(parse_quote! { after_step(h, g, c); });
+                }
+            }
         }
         b.stmts = out;
     }
